@@ -15,7 +15,7 @@ SA   == Str(<<47,97>>)            \* "/a"
 SB   == Str(<<47,98>>)            \* "/b"
 SX   == Str(<<120>>)
 
-Vals == { Null, N1, SX, Obj(<<>>), Arr(<<Null>>), Obj(<<Mem(<<97>>, NBig)>>) }
+Vals == { Null, N1, SX, Obj(<<>>), Arr(<<Null>>), Obj(<<Mem(<<97>>, NBig)>>), Num(<<49,101,52,48,48>>), Arr(<<Num(<<45,50,46,53,69,43,57,57,57>>)>>) }
 
 M(k, v) == Mem(k, v)
 Base == { Obj(<<M(kOp, Str(sAdd)), M(kPath, SA), M(kValue, v)>>) : v \in Vals }
